@@ -753,10 +753,12 @@ func (s *State) equalizedGroups(aName, bName string) bool {
 		// Type of object-group differs.
 		return false
 	}
+	// Group from Netspoc has already been equalized with some group on
+	// device. It must not be equalized again with some other group.
+	if gb.ready {
+		return ga.name == gb.name
+	}
 	if ga.needed {
-		if gb.ready {
-			return ga.name == gb.name
-		}
 		s.findGroupOnDevice(bName)
 		return false
 	}
